@@ -219,7 +219,7 @@ pub fn askers_vs_ending(g: &mut G) -> Scenario {
                 0..=4 => ask(0, g),
                 5 => Op::AskT { h: 0, m: Msg::work(g.mid()), ms: g.pick(&[1u64, 5, 50, 3_600_000]) },
                 6 => ask_slow(0, g, 2),
-                7 => Op::AskJoin { h: 0, m: Msg { id: g.mid(), kind: MsgKind::Join { delay_ms: g.below(3), out: g.pick(&[JobOut::Value, JobOut::Value, JobOut::Panic, JobOut::Abort]) }, steps: vec![] } },
+                7 => Op::AskJoin { h: 0, m: Msg { id: g.mid(), kind: MsgKind::Join { delay_ms: g.pick(&[0u64, 1, 2, 5, 20, 100]), out: g.pick(&[JobOut::Value, JobOut::Value, JobOut::Panic, JobOut::Abort]) }, steps: vec![] } },
                 8 => tell(0, g),
                 _ => Op::TellT { h: 0, m: Msg::work(g.mid()), ms: g.pick(&[1u64, 5, 50]) },
             });
